@@ -360,6 +360,35 @@ func checkC14(p *Program, r *Report) {
 			hs, _ := rangeLoopsOver(content, fld)
 			for _, h := range hs {
 				ex := earlyLoopExits(content, h)
+				if fld == "TxIn" && txIdx != nil && len(ex) > 0 {
+					// benign variant C14-x2: `if isCoinbase { break }` inside the input loop — leaving the loop over the inputs
+					// of the transaction with index 0 skips nothing that belongs in the filter
+					in := loopBlocks(content, h)
+					lcx := NewLinCtx(p, content)
+					var rest []*ssa.BasicBlock
+					for _, e := range ex {
+						okExit := false
+						if _, isRet := lastInstr(e).(*ssa.Return); !isRet {
+							okExit = true
+							for _, sx := range e.Succs {
+								if in[sx] {
+									continue
+								}
+								cs := MustCondsAtBlock(content, e)
+								if ec, ok := edgeCond(e, sx); ok {
+									cs = append(cs, ec)
+								}
+								if !lcx.Entails(lcx.FactsOf(cs), lcx.Lin(txIdx)) {
+									okExit = false
+								}
+							}
+						}
+						if !okExit {
+							rest = append(rest, e)
+						}
+					}
+					ex = rest
+				}
 				how := "no break / return inside the loop"
 				if len(ex) > 0 {
 					how = "the loop is also left at " + p.Pos(p.InstrPos(lastInstr(ex[0])))
